@@ -22,7 +22,7 @@ RULE = ('Seeded scenarios: a real fit file of 1..10 sources (>= 1 fitted point a
         '(criterion, naming, channel, #good, #bad)).')
 ASSUMPTIONS = ['input records come from a real fit() run (their correctness is C10\'s subject)', 'a zero-byte output file is an empty list of records',
                'thresholds are > 0 and never equal to an attained value']
-PROBES = ['good_empty', 'bad_empty', 'both_nonempty', 'auto_names', 'channel_list', 'second_split', 'best_chi2_ge_1e30', 'output_names_reused', 'synthetic_threshold_adjacent']
+PROBES = ['good_empty', 'bad_empty', 'both_nonempty', 'auto_names', 'channel_list', 'second_split', 'best_chi2_ge_1e30', 'output_names_reused', 'synthetic_threshold_adjacent', 'explicit_names_auto_in_name', 'explicit_names_auto_dir', 'explicit_names_swapped_words', 'explicit_names_next_to_input']
 
 
 def budgets(tier):
@@ -75,6 +75,7 @@ def generate(rng, tier, idx):
     for k in range(rng.choice([1, 1, 2, 3])):
         steps.append({'criterion': rng.choice(['chi', 'cpd']), 'threshold': float('%.4g' % (10 ** rng.uniform(-2, 6))) if rng.random() < 0.8 else rng.choice([1e29, 1e31, 1e-9]),
                       'naming': rng.choice(['explicit', 'auto']), 'channel': rng.choice(['path', 'list']), 'auto_as': rng.choice(['default', 'runtime']),
+                      'name_style': rng.choice(['plain', 'plain', 'auto_in_name', 'auto_dir', 'swapped_words', 'next_to_input']),
                       # later steps either split an output of the previous step, or re-filter the SAME input again (tuning the
                       # threshold), in which case the outputs of the earlier run are still lying around under the same names
                       'input': 'fit' if k == 0 else rng.choice(['good', 'bad', 'fit', 'fit']),
@@ -202,11 +203,26 @@ def _execute(sc, sim, out):
         arg = inp if channel == 'path' else pipe.read_fit_sed(inp)
         if channel == 'list':
             out.probe('channel_list')
-        before = set(os.listdir(sim.root))
+        here = os.path.dirname(inp)            # automatic names are made next to the input
+        before = set(os.listdir(here))
         before_bytes = env.real_open(inp, 'rb').read()
         kw = {st['criterion']: th}
         if naming == 'explicit':
-            g, b = sim.path('split%d.good' % i), sim.path('split%d.bad' % i)
+            style = st.get('name_style', 'plain')
+            if style == 'auto_in_name':
+                # explicit names may contain any word, also 'auto', 'good' or 'bad'
+                g, b = sim.path('automatic%d_keep.fitinfo' % i), sim.path('semiauto%d_bad_ones' % i)
+            elif style == 'auto_dir':
+                os.makedirs(sim.path('autofit'), exist_ok=True)
+                g, b = sim.path('autofit', 'g%d' % i), sim.path('autofit', 'b%d' % i)
+            elif style == 'swapped_words':
+                g, b = sim.path('bad%d_rejected_not.sel' % i), sim.path('good%d_rejected.sel' % i)
+            elif style == 'next_to_input':
+                g, b = inp + '_good_sel', inp + '_bad_sel'
+            else:
+                g, b = sim.path('split%d.good' % i), sim.path('split%d.bad' % i)
+            if style != 'plain':
+                out.probe('explicit_names_' + style)
             if st.get('reuse_names') and last_explicit is not None and inp not in last_explicit:
                 g, b = last_explicit
                 out.probe('output_names_reused')
@@ -221,7 +237,7 @@ def _execute(sc, sim, out):
         if r[0] != 'ok':
             out.violate('split-failed', 'filter_output raised %s: %s' % (pipe.exc_name(r), r[1]), key='%s/%s@%s' % (channel, pipe.exc_name(r), pipe.where(r[1]) if r[0] == 'exc' else ''))
             break
-        new = sorted(set(os.listdir(sim.root)) - before - {'_tmp'})
+        new = sorted(set(os.listdir(here)) - before - {'_tmp'})
         if naming == 'auto':
             if inp in auto_seen:
                 # the same input was split with automatic names before: the outputs replace the earlier ones
@@ -233,7 +249,7 @@ def _execute(sc, sim, out):
                 break
             contents = {}
             for nme in new:
-                rr = pipe.call(_read, sim.path(nme))
+                rr = pipe.call(_read, os.path.join(here, nme))
                 if rr[0] != 'ok':
                     out.violate('output-unreadable', '%s: %s' % (nme, pipe.exc_name(rr)))
                     break
@@ -246,7 +262,7 @@ def _execute(sc, sim, out):
             if len(gname) != 1 or len(bname) != 1:
                 out.violate('two-files', 'cannot tell the good from the bad file among %s' % new)
                 break
-            g, b = sim.path(gname[0]), sim.path(bname[0])
+            g, b = os.path.join(here, gname[0]), os.path.join(here, bname[0])
             auto_seen.add(inp)
             auto_names[inp] = (g, b)
         rg = pipe.call(_read, g)
